@@ -12,6 +12,8 @@ SPEC = {
     ],
     "engines": [
         {"name": "inhibit", "pkg": "./inhibit", "search_cases": 20000},
+        # the whole pipeline: the assembled instance (engine sys of C01/C04/C05) never lists a suppressed alert in a notification
+        {"name": "sys", "pkg": "./sys", "search_cases": 4000, "quick_cases": 250, "timeout_quick": 90, "only": ["mutes_iff_spec"]},
     ],
     "rule": "random histories on the real mem.Alerts provider + inhibit.Inhibitor under synctest virtual time: 1-3 rules "
             "(matchers with all four operators over sev/role/x/e, 0-2 equal labels, sides that overlap), a pool of 4-7 label sets "
